@@ -96,24 +96,67 @@ func (e *Exec) resultValue(name string, resT *types.Tuple, st *State) Value {
 // callOut: a call into code we know nothing about. Everything reachable may change.
 func (e *Exec) callOut(ins ssa.Instruction, what string, resT *types.Tuple, st *State) Value {
 	e.ctx.notes = append(e.ctx.notes, fmt.Sprintf("%s: call-out (%s): heap and memory havocked", shortKey(e.topName), what))
-	e.ctx.havocAll(st, what)
+	e.havocKeepGhost(st, what)
 	return e.resultValue("ret", resT, st)
+}
+
+// funcValueCall: call through a function value whose target is unknown.
+// invoked ledger: ghost map from function identity to the number of times this activation
+// completed (invoked or handed on) that function value.
+const invFam = "ghost:invoked"
+
+func (e *Exec) invGet(st *State, id *Term) *Term {
+	return e.ctx.read(st, invFam, I64, id)
+}
+
+func (e *Exec) invBump(st *State, id *Term) {
+	cur := e.invGet(st, id)
+	e.ctx.write(st, invFam, id, Add(cur, ConstI(1, I64)))
+}
+
+// handOn: a function value is passed where the callee promises exactly-once completion.
+// The value counts as completed once; if it is a closure whose contract completes one of its
+// captured function values exactly once per invocation, so does that captured value.
+func (e *Exec) handOn(st *State, v Value, depth int) {
+	fv, ok := v.(FuncV)
+	if !ok || depth > 4 {
+		return
+	}
+	e.invBump(st, fv.ID)
+	if fv.Static == nil {
+		return
+	}
+	wfc := e.C.lookup(funcKey(fv.Static))
+	if wfc == nil {
+		return
+	}
+	for _, cs := range wfc.Consumes {
+		if cs.Unless != nil {
+			continue
+		}
+		for i, free := range fv.Static.FreeVars {
+			if free.Name() == cs.Name && i < len(fv.Bindings) {
+				if pv, ok := fv.Bindings[i].(PtrV); ok {
+					e.handOn(st, e.loadAt(st, pv), depth+1)
+				}
+			}
+		}
+	}
 }
 
 // funcValueCall: call through a function value whose target is unknown.
 func (e *Exec) funcValueCall(ins ssa.Instruction, c *ssa.CallCommon, fv FuncV, args []Value, st *State) Value {
 	name := calleeText(c)
+	if dn := debugName(ins, c.Value); dn != "" {
+		name = dn
+	}
+	e.invBump(st, fv.ID)
 	if fc := e.C.lookup("fnparam:" + funcKey(e.fn) + "." + name); fc != nil {
 		fc.Used = true
-		e.ghostAdd(st, "invoked:"+name, 1)
 		return e.contractCall(ins, "fnparam:"+funcKey(e.fn)+"."+name, fc, c.Signature(), args, sigParamNames(c.Signature()), st, nil)
 	}
 	e.siteAsserts(ins, name, args, st, "before", nil)
-	// ghost: count invocations of function-typed parameters / captured variables
-	e.ghostAdd(st, "invoked:"+name, 1)
-	saved := st.ghost
 	v := e.callOut(ins, "function value "+name, c.Signature().Results(), st)
-	st.ghost = saved
 	e.siteAsserts(ins, name, args, st, "after", v)
 	return v
 }
@@ -158,6 +201,13 @@ func (e *Exec) staticCall(ins ssa.Instruction, fn *ssa.Function, args []Value, b
 	if v, ok := e.specialCall(ins, key, fn, args, st); ok {
 		return v
 	}
+	if isMutexKey(key) {
+		e.siteAsserts(ins, key, args, st, "before", nil)
+		if e.mutexCall(ins, key, args, st) {
+			e.siteAsserts(ins, key, args, st, "after", nil)
+			return nil
+		}
+	}
 	resT := fn.Signature.Results()
 	fc := e.C.lookup(key)
 	if fc == nil && fn.Origin() != nil {
@@ -196,7 +246,10 @@ func (e *Exec) staticCall(ins ssa.Instruction, fn *ssa.Function, args []Value, b
 		return e.contractCall(ins, key, fc, fn.Signature, allArgs, names, st, fn)
 	}
 	if fn.Blocks != nil && e.depth < 10 && (fc != nil || e.autoInline(fn)) {
-		return pack(e.inlineCallB(fn, args, bindings, st, e.specMode))
+		e.siteAsserts(ins, key, args, st, "before", nil)
+		res := pack(e.inlineCallB(fn, args, bindings, st, e.specMode))
+		e.siteAsserts(ins, key, args, st, "after", res)
+		return res
 	}
 	// no contract, not inlinable
 	ws := e.fx().ofStatic(fn, nil)
@@ -285,6 +338,12 @@ func (e *Exec) contractCall(ins ssa.Instruction, key string, fc *FuncContract, s
 	pre := st.clone()
 	env := e.newEnv(st, pre)
 	env.site = true
+	if strings.HasPrefix(key, "fnparam:") {
+		// the spec of a function-typed parameter is written in the scope of the function that
+		// declares it
+		env.site = false
+		env.block = ins.Block()
+	}
 	if pk := e.P.SPkgs[fc.Pkg]; pk != nil {
 		env.pkg = pk.Pkg
 	}
@@ -315,6 +374,14 @@ func (e *Exec) contractCall(ins ssa.Instruction, key string, fc *FuncContract, s
 			e.ctx.assume(Imp(st.pc, g))
 		}
 	}
+	// hand-off accounting for parameters the callee completes exactly once
+	for _, cs := range fc.Consumes {
+		for i, n := range names {
+			if n == cs.Name && i < len(args) {
+				e.handOn(st, args[i], 0)
+			}
+		}
+	}
 	// effects
 	var ws *WriteSet
 	if fn != nil && fn.Blocks != nil && !fc.Trusted {
@@ -331,7 +398,7 @@ func (e *Exec) contractCall(ins ssa.Instruction, key string, fc *FuncContract, s
 		e.havocModifies(st, pre, env, fc, ws)
 	} else if ws.Top {
 		e.ctx.notes = append(e.ctx.notes, fmt.Sprintf("%s: callee %s may call out: heap havocked", shortKey(e.topName), shortKey(key)))
-		e.ctx.havocAll(st, key)
+		e.havocKeepGhost(st, key)
 	} else {
 		e.havocSet(st, ws, "call")
 	}
@@ -533,6 +600,9 @@ func (e *Exec) frameObligations(st *State, pos token.Pos) {
 		return
 	}
 	for _, k := range keys {
+		if k == invFam {
+			continue // the invoked ledger is ghost state of this activation
+		}
 		var srt *Sort
 		if m, ok := st.mems[k]; ok {
 			srt = m.sort
@@ -594,7 +664,14 @@ func (e *Exec) siteAsserts(ins ssa.Instruction, callee string, args []Value, st 
 		return
 	}
 	for ai, sa := range root.fc.Asserts {
-		if sa.When != when || !strings.Contains(callee, sa.Pattern) {
+		if sa.When != when {
+			continue
+		}
+		if when == "def" {
+			if callee != sa.Pattern {
+				continue
+			}
+		} else if !strings.Contains(callee, sa.Pattern) {
 			continue
 		}
 		ck := fmt.Sprintf("site:%d:%s", ai, when)
@@ -814,4 +891,191 @@ func (e *Exec) specialCall(ins ssa.Instruction, key string, fn *ssa.Function, ar
 		return Scalar{nv}, true
 	}
 	return nil, false
+}
+
+// havocKeepGhost: everything reachable by unknown code is forgotten; ghost state of this
+// activation (the invoked ledger and ghost maps not written by the callee) is not reachable.
+func (e *Exec) havocKeepGhost(st *State, why string) {
+	keep := map[string]*Mem{}
+	for k, m := range st.mems {
+		if k == invFam || e.C.immutableKey(k) {
+			keep[k] = m
+		}
+	}
+	// immutable fields not read so far keep their (initial) value too: materialise them
+	for base := range e.C.Immutable {
+		for _, lf := range e.immutableFamilies(base) {
+			if _, ok := keep[lf.key]; !ok {
+				keep[lf.key] = e.ctx.family(st, lf.key, lf.sort)
+			}
+		}
+	}
+	e.lockObligation(st, why)
+	if _, ok := keep[invFam]; !ok {
+		keep[invFam] = e.ctx.family(st, invFam, I64)
+	}
+	e.ctx.havocAll(st, why)
+	for k, m := range keep {
+		st.mems[k] = m
+	}
+}
+
+// immutableFamilies: leaf families of an immutable field "T.f" (the field's type is looked up
+// in the program).
+func (e *Exec) immutableFamilies(base string) []leafFam {
+	dot := strings.LastIndex(base, ".")
+	tname, fname := base[:dot], base[dot+1:]
+	t := e.findNamedType(tname)
+	if t == nil {
+		return nil
+	}
+	su, ok := structOf(t)
+	if !ok {
+		return nil
+	}
+	for i := 0; i < su.NumFields(); i++ {
+		if su.Field(i).Name() == fname {
+			ft := su.Field(i).Type()
+			if _, isStruct := structOf(ft); isStruct {
+				return nil
+			}
+			if _, isArr := under(ft).(*types.Array); isArr {
+				return nil
+			}
+			return e.leafFamilies(ft, base)
+		}
+	}
+	return nil
+}
+
+var namedTypeCache = map[string]types.Type{}
+
+func (e *Exec) findNamedType(rel string) types.Type {
+	if t, ok := namedTypeCache[rel]; ok {
+		return t
+	}
+	pkgPath := modPath
+	name := rel
+	if i := strings.LastIndex(rel, "."); i >= 0 {
+		pkgPath = modPath + "/" + rel[:i]
+		name = rel[i+1:]
+	}
+	var t types.Type
+	if sp := e.P.SPkgs[pkgPath]; sp != nil {
+		if obj := sp.Pkg.Scope().Lookup(name); obj != nil {
+			t = obj.Type()
+		}
+	}
+	namedTypeCache[rel] = t
+	return t
+}
+
+// Locks ------------------------------------------------------------------------------
+
+func heldKey(addr *Term) string { return "held:" + addr.String() }
+
+// lockObligation: no mutex of this activation is held when control leaves to unknown code
+// (the callee may re-enter the library and take the same lock).
+func (e *Exec) lockObligation(st *State, why string) {
+	for k, v := range st.ghost {
+		if strings.HasPrefix(k, "held:") {
+			root := e.root()
+			root.counts["lockco:"+k]++
+			e.addObl("lock", fmt.Sprintf("not-held-at-callout#%d", root.counts["lockco:"+k]), "no mutex is held while calling out to user code ("+why+")", e.lockProps(), st, Eq(v, ConstI(0, I64)), token.NoPos)
+		}
+	}
+}
+
+func (e *Exec) lockProps() []string {
+	root := e.root()
+	return root.defaultProps
+}
+
+func isMutexKey(key string) bool {
+	switch key {
+	case "sync.(*Mutex).Lock", "sync.(*Mutex).Unlock", "sync.(*RWMutex).Lock", "sync.(*RWMutex).Unlock":
+		return true
+	}
+	return false
+}
+
+func (e *Exec) mutexCall(ins ssa.Instruction, key string, args []Value, st *State) bool {
+	switch key {
+	case "sync.(*Mutex).Lock", "sync.(*Mutex).Unlock", "sync.(*RWMutex).Lock", "sync.(*RWMutex).Unlock":
+	default:
+		return false
+	}
+	pv, ok := args[0].(PtrV)
+	if !ok {
+		return false
+	}
+	k := heldKey(pv.Addr)
+	cur := e.ghostGet(st, k)
+	if strings.HasSuffix(key, ".Lock") {
+		e.addObl("lock", "acquire:"+e.lineOf(ins), "mutex is not already held by this goroutine (self-deadlock)", e.lockProps(), st, Eq(cur, ConstI(0, I64)), ins.Pos())
+		st.ghost[k] = ConstI(1, I64)
+	} else {
+		e.addObl("lock", "release:"+e.lineOf(ins), "mutex is held when unlocked", e.lockProps(), st, Eq(cur, ConstI(1, I64)), ins.Pos())
+		st.ghost[k] = ConstI(0, I64)
+	}
+	return true
+}
+
+func (e *Exec) lineOf(ins ssa.Instruction) string {
+	txt, _ := e.srcLine(ins.Pos())
+	root := e.root()
+	root.counts["line:"+txt]++
+	return fmt.Sprintf("%s#%d", txt, root.counts["line:"+txt])
+}
+
+// guardedAccess: obligation for a load/store of a field declared "guarded T.f by lock".
+func (e *Exec) guardedAccess(p PtrV, st *State, pos token.Pos, what string) {
+	if p.Kind != pLoc || e.specMode {
+		return
+	}
+	base := p.Key
+	if i := strings.Index(base, "#"); i >= 0 {
+		base = base[:i]
+	}
+	gs := e.C.Guarded[base]
+	if gs == nil {
+		return
+	}
+	for _, c := range gs.Constructors {
+		if strings.Contains(e.topName, c) {
+			return
+		}
+	}
+	// the lock field of the same object
+	dot := strings.LastIndex(base, ".")
+	t := e.findNamedType(base[:dot])
+	if t == nil {
+		return
+	}
+	su, _ := structOf(t)
+	idx, _ := findField(su, gs.Lock)
+	if idx < 0 {
+		e.errorf("guarded: no lock field %s in %s", gs.Lock, base[:dot])
+	}
+	lp := e.fieldAddr(PtrV{Kind: pObj, Addr: p.Addr, T: t, FirstClass: true}, idx, st)
+	held := e.ghostGet(st, heldKey(lp.Addr))
+	txt, _ := e.srcLine(pos)
+	root := e.root()
+	ck := "guarded:" + base + ":" + txt
+	root.counts[ck]++
+	props := gs.Props
+	e.addObl("guarded", fmt.Sprintf("%s@%s#%d", base, txt, root.counts[ck]), what+" of "+base+" with "+gs.Lock+" held (field is shared with goroutines calling Post)", props, st, Eq(held, ConstI(1, I64)), pos)
+}
+
+// debugName: the source-level variable name bound to an SSA value (from DebugRef).
+func debugName(ins ssa.Instruction, v ssa.Value) string {
+	fn := ins.Parent()
+	for _, b := range fn.Blocks {
+		for _, i := range b.Instrs {
+			if d, ok := i.(*ssa.DebugRef); ok && d.X == v && !d.IsAddr && d.Object() != nil {
+				return d.Object().Name()
+			}
+		}
+	}
+	return ""
 }
